@@ -31,7 +31,7 @@ PARTIAL = ["signals[i] for i < -signal_count is outside the property and is not 
 
 LN = "NI_LineNames"
 ALPHA = ["a", "b", "c", "x", "p0", "clk", "strobe", "é", "A B"]
-WS = [" ", "  ", "\t", "\n", "\xa0", " \t"]
+WS = [" ", "  ", "\t", "\n", "\xa0", " \t", "\x1f", "\x85", "\u2003", "\u3000", "\r\n", "\u2028"]
 
 
 def _mk_name(rng):
@@ -234,6 +234,9 @@ class _Impl:
 
 
 def run_impl(c):
+    if c["k"] == "wsset":
+        # every code point that str.strip() removes, over the whole code space
+        return {"out": [cp for cp in range(0x110000) if (chr(cp) + "a" + chr(cp)).strip() == "a"]}
     if c["k"] == "parse":
         return {"out": [x.strip() for x in c["s"].split(",")]}
     if c["k"] == "join":
@@ -291,6 +294,8 @@ def _resc(r):
 
 
 def to_coq(c, r):
+    if c["k"] == "wsset":
+        return "NWsSet %s" % vf.listc(r["out"])
     if c["k"] == "parse":
         return "NParse %s [%s]" % (_s(c["s"]), "; ".join(_s(x) for x in r["out"]))
     if c["k"] == "join":
@@ -310,7 +315,7 @@ def _variant(op):
 
 
 def sig(c, r):
-    if c["k"] in ("parse", "join"):
+    if c["k"] in ("parse", "join", "wsset"):
         return c["k"] + "|" + str(min(len(r["out"]), 4)), True
     parts = []
     for op, st in list(zip(c["ops"], r["steps"]))[:3]:
@@ -439,7 +444,8 @@ def gen_cases(rng, tier):
     big = tier != "quick"
     cases = []
     # string model against CPython
-    chars = list("ab ,\t\n\x0b\x0c\r\x1c\x1d\x1e\x1f\x85\xa0é0_-") + [" ", ",", ","]
+    chars = list("ab ,\t\n\x0b\x0c\r\x1c\x1d\x1e\x1f\x85\xa0é0_-\u1680\u2000\u2009\u200a\u200b\u2028\u2029\u202f\u205f\u3000\ufeff") + [" ", ",", ","]
+    cases.append({"k": "wsset"})
     for _ in range(400 if not big else 6000):
         s = "".join(rng.choice(chars) for _ in range(rng.choice([0, 1, 2, 3, 5, 8, 13])))
         cases.append({"k": "parse", "s": s})
